@@ -52,3 +52,7 @@ pub fn install() {
         })
     })));
 }
+
+pub fn uninstall() {
+    mini_moka::verif::set_switch_callback(None);
+}
